@@ -117,6 +117,47 @@ pub fn run(ctx: &mut Ctx) {
             if idx % 9973 == 0 { ctx.sample(&format!("name candidate {:?} classes {} -> {}", s, pat, doc_for("element", &s))); }
         }
     }
+    in_situ(ctx);
+}
+
+/// part 3: every scalar value, inside and at the start of a name, through the real name parsers of each position
+/// (a classifier can be right while the scanner built on it is not). Characters that are not name characters may
+/// end the name legally (white space, '/', '>', '=' ...): libxml2 says whether the text is then still well-formed.
+fn in_situ(ctx: &mut Ctx) {
+    let positions: &[&str] = if ctx.thorough { &["element", "attribute", "pi", "entity"] } else { &["element", "attribute"] };
+    const BLOCK: u32 = 2048;
+    let mut b = 0u32;
+    while b * BLOCK <= 0x10FFFF {
+        let idx = 50_000_000 + b as u64;
+        let lo = b * BLOCK; b += 1;
+        if !ctx.mine(idx) { continue; }
+        ctx.begin(idx, &format!("scalar values from U+{:04X} in names", lo));
+        for u in lo..(lo + BLOCK).min(0x110000) {
+            let c = match char::from_u32(u) { Some(c) => c, None => continue };
+            if c == ':' { continue; }
+            let forms: &[&str] = if ctx.thorough { &["a{}", "{}", "a{}b"] } else { &["a{}", "{}"] };
+            for f in forms {
+                let s = f.replace("{}", &c.to_string());
+                for pos in positions {
+                    ctx.evaluations += 1;
+                    if pos == &"pi" && s.eq_ignore_ascii_case("xml") { continue; }
+                    let text = doc_for(pos, &s);
+                    let r = rule(pos, &s);
+                    // not a name character: the text may still be well-formed because the character ends the name
+                    if r == Some("nonname-char") && crate::refxml::parse(&text, false).wf { ctx.count("in-situ/delimiter"); continue; }
+                    match accepted(&text) {
+                        Err(p) => ctx.violation(idx, &format!("C18/name/{}/{}", pos, p), &format!("U+{:04X} in {}", u, text), &[("pos", pos), ("name", &s)]),
+                        Ok(acc) => {
+                            if acc && r.is_some() { ctx.violation(idx, &format!("C18/name/{}/accepted/{}", pos, r.unwrap()), &format!("U+{:04X} in {}", u, text), &[("pos", pos), ("name", &s)]); }
+                            else if !acc && r.is_none() { ctx.violation(idx, &format!("C18/name/{}/rejected/valid-name", pos), &format!("U+{:04X} in {}", u, text), &[("pos", pos), ("name", &s)]); }
+                            else { ctx.count(if acc { "in-situ/accepted" } else { "in-situ/rejected" }); }
+                        }
+                    }
+                }
+            }
+        }
+        ctx.nontrivial(&format!("in-situ block {}", lo));
+    }
 }
 
 pub fn witness(f: &[String]) -> Option<String> {
